@@ -210,7 +210,8 @@ def adaptive_case(draw):
                 st.tuples(st.just("fail")),
                 st.tuples(st.just("tick"), st.sampled_from([1, 2, 4, 16, 64, 256])),
                 st.tuples(st.just("tick_window"), st.sampled_from([-1, 0, 1])),
-                st.tuples(st.just("call"), st.one_of(st.sampled_from([0.0, 0.5, 1.0, 1e300]), st.floats(0, 1e300))),
+                # (fallback value, remaining_s in the context: adaptive() scales its fallback, the deadline is the runner's business)
+                st.tuples(st.just("call"), st.one_of(st.sampled_from([0.0, 0.5, 1.0, 1e300]), st.floats(0, 1e300)), st.sampled_from([None, None, 0.0, 0.125, 0.5, 2.0])),
                 st.tuples(st.just("set_bounds"), st.sampled_from([1.0, 1.5, 3.0]), st.sampled_from([0.0, 1.0, 2.5])),  # (min, max - min) assigned on the live object
                 st.tuples(st.just("set_target"), st.sampled_from([1.0, 0.9, 0.5, 0.1])),
             ),
@@ -279,7 +280,10 @@ def check_adaptive(case: dict) -> Verdict:
                 fb = op[1]
                 fbv[0] = fb
                 ncalls += 1
-                out = a(ctx)
+                rem = op[2] if len(op) > 2 else None
+                out = a(ctx if rem is None else BackoffContext(1, Classification(ErrorClass.TRANSIENT), None, rem, "exception"))
+                if rem is not None:
+                    v.tag("adaptive-with-remaining")
                 live = [ok for (t, ok) in events if now[0] - t < w]
                 lo, hi = fb * case["min"], fb * case["max"]
                 if not (lo * (1 - REL) <= out <= hi * (1 + REL)) or out < fb * (1 - REL) or math.isnan(out):
